@@ -2,7 +2,10 @@
 
    Producers : EncodeCells (cell.go), StyledString.Encode (styled_string.go) and the pen
                part of render (vaxis.go) - one delta encoder [pen_delta], the Go copies
-               differ only in the capability fallbacks of render.
+               differ only in the capability fallbacks of render and in the format strings:
+               with VAXIS_FORCE_LEGACY_SGR set, applyQuirks rewrites the package variables
+               fgIndexSet/fgRGBSet/bgIndexSet/bgRGBSet to the semicolon syntax ([legacy]);
+               render and EncodeCells use them, StyledString.Encode has its own constants.
    Consumers : parseSGR (cell.go) [parse_sgr], Model.sgr (widgets/term/sgr.go) [term_sgr],
                the SGR part of NewStyledString (styled_string.go) [styled_sgr].
    An SGR sequence is the list of its params, each param the list of its sub-params
@@ -86,16 +89,38 @@ Definition print_tok (t : tok) : list Z :=
   end.
 Definition print_toks (ts : list tok) : list Z := flat_map print_tok ts.
 
+(* fmt.Sprintf / fmt.Fprintf restricted to the verbs %d and %s: used to state that the format
+   strings of sequences.go (translated into gen/GenSgr.v) print what print_tok prints *)
+Inductive farg := FD (n : Z) | FS (s : text).
+Fixpoint sprintf (f : list Z) (args : list farg) : list Z :=
+  match f with
+  | [] => []
+  | c :: t =>
+      if c =? 37 then
+        match t with
+        | _ :: t' => match args with
+                     | FD n :: rest => dec n ++ sprintf t' rest
+                     | FS x :: rest => x ++ sprintf t' rest
+                     | [] => []
+                     end
+        | [] => [c]
+        end
+      else c :: sprintf t args
+  end.
+(* strings.ReplaceAll(s, ":", ";") of applyQuirks *)
+Definition legacy_form (f : list Z) : list Z := map (fun r => if r =? 58 then 59 else r) f.
+
 (* ---------- producers ---------- *)
 
-(* foreground / background: b0 = 30/40, br = 90/100, ext = 38/48, rst = 39/49; [ps] = Color.Params *)
-Definition fgbg_sgr (b0 br ext rst : Z) (ps : list Z) : list sgrseq :=
+(* foreground / background: b0 = 30/40, br = 90/100, ext = 38/48, rst = 39/49; [ps] = Color.Params.
+   legacy: ESC[38;5;Nm / ESC[38;2;R;G;Bm (separate params) instead of ESC[38:5:Nm (sub-params) *)
+Definition fgbg_sgr (legacy : bool) (b0 br ext rst : Z) (ps : list Z) : list sgrseq :=
   match ps with
   | [] => [[[rst]]]
   | [n] => if n <? 8 then [[[b0 + n]]]
            else if n <? 16 then [[[br + (n - 8)]]]
-           else [[[ext; 5; n]]]
-  | [r; g; b] => [[[ext; 2; r; g; b]]]
+           else if legacy then [[[ext]; [5]; [n]]] else [[[ext; 5; n]]]
+  | [r; g; b] => if legacy then [[[ext]; [2]; [r]; [g]; [b]]] else [[[ext; 2; r; g; b]]]
   | _ => []
   end.
 
@@ -130,9 +155,9 @@ Definition eff_colour (rgb : bool) (c : Z) : Z := if rgb then c else as_index c.
 
 (* The SGR sequences written when the pen goes from [prev] to [next].
    rgb = smulx = true is EncodeCells and StyledString.Encode; render passes its capabilities. *)
-Definition pen_delta (rgb smulx : bool) (prev next : pen) : list sgrseq :=
-  (if fg prev =? fg next then [] else fgbg_sgr 30 90 38 39 (color_params (eff_colour rgb (fg next))))
-  ++ (if bg prev =? bg next then [] else fgbg_sgr 40 100 48 49 (color_params (eff_colour rgb (bg next))))
+Definition pen_delta (legacy rgb smulx : bool) (prev next : pen) : list sgrseq :=
+  (if fg prev =? fg next then [] else fgbg_sgr legacy 30 90 38 39 (color_params (eff_colour rgb (fg next))))
+  ++ (if bg prev =? bg next then [] else fgbg_sgr legacy 40 100 48 49 (color_params (eff_colour rgb (bg next))))
   ++ (if smulx then
         if ul prev =? ul next then [] else ul_sgr (color_params (eff_colour rgb (ul next)))
       else [])
@@ -146,24 +171,28 @@ Definition link_delta (prev next : style) : list tok :=
   else [TOsc8 (match link next with [] => [] | _ => linkp next end) (link next)].
 
 (* the loop of EncodeCells / StyledString.Encode; [cur] is the Go variable cursor *)
-Fixpoint enc_loop (cur : style) (cs : list cell) : list tok :=
+Fixpoint enc_loop (legacy : bool) (cur : style) (cs : list cell) : list tok :=
   match cs with
   | [] => if style_eqb cur style0 then [] else [TSgr []]
   | (g, st) :: t =>
-      map TSgr (pen_delta true true (spen cur) (spen st)) ++ link_delta cur st ++ TText g :: enc_loop st t
+      map TSgr (pen_delta legacy true true (spen cur) (spen st)) ++ link_delta cur st
+      ++ TText g :: enc_loop legacy st t
   end.
 
-Definition encode_cells (cs : list cell) : list tok := enc_loop style0 cs.   (* cell.go *)
-Definition ss_encode (cs : list cell) : list tok := enc_loop style0 cs.      (* styled_string.go: same text, own constants *)
+(* cell.go: uses the package variables the legacy quirk rewrites *)
+Definition encode_cells (legacy : bool) (cs : list cell) : list tok := enc_loop legacy style0 cs.
+(* styled_string.go: same text with its own constants ssFgIndexSet ..., which no quirk touches *)
+Definition ss_encode (cs : list cell) : list tok := enc_loop false style0 cs.
 
 (* render: what one row of cells (no hyperlinks) contributes between the CUP and the
    end of the frame; Flush appends sgrReset *)
-Fixpoint render_loop (rgb smulx : bool) (cur : pen) (cs : list pcell) : list tok :=
+Fixpoint render_loop (legacy rgb smulx : bool) (cur : pen) (cs : list pcell) : list tok :=
   match cs with
   | [] => [TSgr []]
-  | (g, p) :: t => map TSgr (pen_delta rgb smulx cur p) ++ TText g :: render_loop rgb smulx p t
+  | (g, p) :: t => map TSgr (pen_delta legacy rgb smulx cur p) ++ TText g :: render_loop legacy rgb smulx p t
   end.
-Definition render_row (rgb smulx : bool) (cs : list pcell) : list tok := render_loop rgb smulx pen0 cs.
+Definition render_row (legacy rgb smulx : bool) (cs : list pcell) : list tok :=
+  render_loop legacy rgb smulx pen0 cs.
 
 (* the pen a terminal holds while it shows a cell drawn with pen [p] by render *)
 Definition eff_pen (rgb smulx : bool) (p : pen) : pen :=
@@ -398,6 +427,17 @@ Definition in_vocab (s : sgrseq) : bool :=
            end
   | _ => false
   end.
+(* ... and the additional forms of the legacy quirk *)
+Definition in_vocab_legacy (s : sgrseq) : bool :=
+  in_vocab s ||
+  match s with
+  | [[c]; [m]; [_]] => mem c [38; 48] && (m =? 5)                 (* 38;5;n *)
+  | [[c]; [m]; [_]; [_]; [_]] => mem c [38; 48] && (m =? 2)       (* 38;2;r;g;b *)
+  | _ => false
+  end.
+Definition uses_ext_colour (p : pen) : bool :=
+  let ext c := match color_params c with [n] => 16 <=? n | [_; _; _] => true | _ => false end in
+  ext (fg p) || ext (bg p).
 
 (* ---------- correspondence ---------- *)
 
@@ -406,49 +446,65 @@ Record codec_obs := mkCodecObs {
   o_encE : text;               (* EncodeCells(cells), code points *)
   o_encS : text;               (* StyledString{cells}.Encode() *)
   o_parsed : list pcell;       (* ParseStyledString(o_encE) *)
-  o_styled : list pcell;       (* NewStyledString(o_encS, Style{}).Cells ([] when a cell has a hyperlink) *)
+  o_styled : list pcell;       (* NewStyledString(o_encS, Style{}).Cells (not observed when a cell has a hyperlink) *)
+  o_styledE : list pcell;      (* NewStyledString(o_encE, Style{}).Cells (likewise) *)
   o_term : list pcell;         (* o_encE through ansi.Parser into the emulator's sgr: pen at each grapheme *)
   o_fin_parse : pen;           (* pen of parseSGR at the end of o_encE *)
   o_fin_term : pen             (* pen of the emulator at the end of o_encE *)
 }.
-Definition codec_case : Type := list cell * codec_obs.
+Definition codec_case : Type := bool * list cell * codec_obs.      (* legacy quirk active?, cells, observation *)
 (* transport form used by the case files (Coq elaborates literals slowly): [None] = the harness
    found this observation equal, as a Go value, to o_encE (for encS) / o_parsed (for the lists) *)
 Definition mkCodecW (encE : text) (encS : option text) (parsed : list pcell)
-    (styled term : option (list pcell)) (fp ft : pen) : codec_obs :=
+    (styled styledE term : option (list pcell)) (fp ft : pen) : codec_obs :=
   mkCodecObs encE (match encS with Some t => t | None => encE end) parsed
     (match styled with Some l => l | None => parsed end)
+    (match styledE with Some l => l | None => parsed end)
     (match term with Some l => l | None => parsed end) fp ft.
 
 Definition res_cells_eqb (r : res (list pcell * pen)) (cs : list pcell) (fin : pen) : bool :=
   match r with Ok (c, f) => pcells_eqb c cs && pen_eqb f fin | Panic => false end.
 
+Definition res_only_cells_eqb (r : res (list pcell * pen)) (cs : list pcell) : bool :=
+  match r with Ok (c, _) => pcells_eqb c cs | Panic => false end.
+
 Definition codec_model_ok (c : codec_case) : bool :=
-  let '(cells, o) := c in
-  let tE := encode_cells cells in
+  let '(legacy, cells, o) := c in
+  let tE := encode_cells legacy cells in
   let tS := ss_encode cells in
   zlist_eqb (print_toks tE) (o_encE o) && zlist_eqb (print_toks tS) (o_encS o)
   && res_cells_eqb (parse_styled_string tE) (o_parsed o) (o_fin_parse o)
   && res_cells_eqb (term_feed tE) (o_term o) (o_fin_term o)
   && (if forallb no_link cells
-      then match new_styled_string pen0 tS with Ok (c, _) => pcells_eqb c (o_styled o) | Panic => false end
+      then res_only_cells_eqb (new_styled_string pen0 tS) (o_styled o)
+           && res_only_cells_eqb (new_styled_string pen0 tE) (o_styledE o)
       else true).
 
-(* the property on one observation: every decoder returned the cells that were encoded,
-   and the string leaves the pen reset *)
-Definition codec_holds (c : codec_case) : bool :=
-  let '(cells, o) := c in
+(* The property on one observation: every decoder returned the cells that were encoded, and
+   the string leaves the pen reset.  [with_styledE] = false leaves out NewStyledString applied
+   to EncodeCells' output (the conjunct the finding legacy-sgr-newstyledstring is about). *)
+Definition codec_holds_gen (with_styledE : bool) (c : codec_case) : bool :=
+  let '(legacy, cells, o) := c in
   if forallb wf_cellb cells then
     let want := map pcell_of cells in
     pcells_eqb (o_parsed o) want && pcells_eqb (o_term o) want
-    && (if forallb no_link cells then pcells_eqb (o_styled o) want else true)
+    && (if forallb no_link cells
+        then pcells_eqb (o_styled o) want && (if with_styledE then pcells_eqb (o_styledE o) want else true)
+        else true)
     && pen_eqb (o_fin_parse o) pen0 && pen_eqb (o_fin_term o) pen0
   else true.
+Definition codec_holds : codec_case -> bool := codec_holds_gen true.
+(* guard of the finding: the legacy quirk is active, a cell has an extended (38/48) colour, and
+   everything else the property demands holds *)
+Definition codec_known (c : codec_case) : bool :=
+  let '(legacy, cells, o) := c in
+  legacy && existsb (fun c => uses_ext_colour (spen (snd c))) cells && codec_holds_gen false c.
 
 Definition c18_codec_mismatches (cases : list codec_case) : list Z :=
   bad_indices (fun c => negb (codec_model_ok c)) cases.
 Definition c18_codec_violations (cases : list codec_case) : list Z :=
   bad_indices (fun c => negb (codec_holds c)) cases.
+Definition c18_codec_known (cases : list codec_case) : list Z := bad_indices codec_known cases.
 
 (* stream render: one screen row drawn by Vaxis.render with given capabilities *)
 Record render_obs := mkRenderObs {
@@ -458,31 +514,36 @@ Record render_obs := mkRenderObs {
   r_term : list pcell;         (* r_out through ansi.Parser into the emulator's sgr *)
   r_fin_term : pen
 }.
-Definition render_case : Type := (bool * bool) * list pcell * render_obs.
+Definition render_case : Type := (bool * bool * bool) * list pcell * render_obs.   (* (legacy, rgb, smulx) *)
 Definition mkRenderW (out : text) (parsed : list pcell) (styled term : option (list pcell)) (ft : pen) : render_obs :=
   mkRenderObs out parsed (match styled with Some l => l | None => parsed end)
     (match term with Some l => l | None => parsed end) ft.
 
 Definition render_model_ok (c : render_case) : bool :=
-  let '((rgb, smulx), cells, o) := c in
-  let t := render_row rgb smulx cells in
+  let '((legacy, rgb, smulx), cells, o) := c in
+  let t := render_row legacy rgb smulx cells in
   zlist_eqb (print_toks t) (r_out o)
   && res_cells_eqb (term_feed t) (r_term o) (r_fin_term o)
-  && match parse_styled_string t with Ok (c, _) => pcells_eqb c (r_parsed o) | Panic => false end
-  && match new_styled_string pen0 t with Ok (c, _) => pcells_eqb c (r_styled o) | Panic => false end.
+  && res_only_cells_eqb (parse_styled_string t) (r_parsed o)
+  && res_only_cells_eqb (new_styled_string pen0 t) (r_styled o).
 
-Definition render_holds (c : render_case) : bool :=
-  let '((rgb, smulx), cells, o) := c in
+Definition render_holds_gen (with_styled : bool) (c : render_case) : bool :=
+  let '((legacy, rgb, smulx), cells, o) := c in
   if forallb wf_pcellb cells then
     let want := map (fun c => (fst c, eff_pen rgb smulx (snd c))) cells in
-    pcells_eqb (r_parsed o) want && pcells_eqb (r_styled o) want && pcells_eqb (r_term o) want
-    && pen_eqb (r_fin_term o) pen0
+    pcells_eqb (r_parsed o) want && (if with_styled then pcells_eqb (r_styled o) want else true)
+    && pcells_eqb (r_term o) want && pen_eqb (r_fin_term o) pen0
   else true.
+Definition render_holds : render_case -> bool := render_holds_gen true.
+Definition render_known (c : render_case) : bool :=
+  let '((legacy, rgb, smulx), cells, o) := c in
+  legacy && existsb (fun c => uses_ext_colour (eff_pen rgb smulx (snd c))) cells && render_holds_gen false c.
 
 Definition c18_render_mismatches (cases : list render_case) : list Z :=
   bad_indices (fun c => negb (render_model_ok c)) cases.
 Definition c18_render_violations (cases : list render_case) : list Z :=
   bad_indices (fun c => negb (render_holds c)) cases.
+Definition c18_render_known (cases : list render_case) : list Z := bad_indices render_known cases.
 
 (* stream sgr: one param list applied to a start pen by each consumer.
    outcome code: 0 = returned, 1 = panicked (pen then irrelevant, shipped as the start pen) *)
